@@ -1274,7 +1274,11 @@ class Command(Frame):
         """Constructor to announce the current presence state of a sensor (2E10)."""
         # .I --- ...
 
-        payload = f"00{hex_from_bool(presence_detected)}"
+        if not isinstance(presence_detected, bool):
+            raise exc.CommandInvalid(
+                f"Invalid value for presence_detected: {presence_detected}"
+            )
+        payload = f"00{'01' if presence_detected else '00'}"  # not 00/C8, c.f. parser_2e10
         return cls._from_attrs(I_, Code._2E10, payload, addr0=dev_id, addr2=dev_id)
 
     @classmethod  # constructor for RQ|30C9
